@@ -244,6 +244,10 @@ func runC15(r *Run, p *Prog) {
 							if T.T(rv.Val) == "nil" && !m.runningFact(T.FactsAt(in.Block()), false) {
 								return true
 							}
+							// the accept error itself (the timeout) handed to the caller ends serving just as well
+							if vt := strip(T.T(rv.Val)); strings.Contains(vt, "Accept(") && !m.runningFact(T.FactsAt(in.Block()), false) {
+								return true
+							}
 						}
 						return false
 					}, isAccept, nil)
